@@ -21,6 +21,7 @@ def run(ctx):
     cacheimpl.run(ctx)
     buddy(ctx)
     pressure_scripts(ctx)
+    fragmentation_scripts(ctx)
     exe = ctx.harness("cache_drv", ["cache/cache_drv.cpp"])
     runs = []
     if q:
@@ -125,6 +126,37 @@ def pressure_scripts(ctx):
         cfg = "CacheTraceP.cfg" if 3 + n + 3 <= 16 else "CacheTraceP_big.cfg"
         for x in validate2(ctx, cfg, t):
             ctx.violation("pressure:%s" % sig(x), "process-shared cache under memory pressure: not a behaviour of Cache (eviction order / stats) at %s" % x["event"][:160], x["path"])
+        os.remove(t)
+
+
+def fragmentation_scripts(ctx):
+    """fragmented segment: the segment is filled with small values, every other survivor is made recently used (the LRU
+    order then alternates in memory, so evictions leave non-adjacent holes), more small values are stored, and finally
+    medium values (two holes wide, below segment/40) arrive: room has to be made for them - they must not be dropped."""
+    exe = ctx.harness("cache_drv", ["cache/cache_drv.cpp"])
+    variants = [(12000, 20000, 70, 40, 12)]
+    if not ctx.quick:
+        variants += [(10000, 24000, 80, 50, 10), (6000, 10000, 150, 80, 16), (12000, 26000, 70, 60, 8)]
+    for i, (small, mid, nfill, nmore, nmid) in enumerate(variants):
+        sc = "pressure\n"
+        k = 0
+        for j in range(nfill):
+            k += 1; sc += "bigstore %d 1000 %d\n" % (k, small)
+        for j in range(1, k + 1, 2):
+            sc += "fetch %d\n" % j
+        for j in range(nmore):
+            k += 1; sc += "bigstore %d 1000 %d\n" % (k, small)
+            if j % 3 == 2:
+                for x in range(k - 1, max(0, k - 40), -2):
+                    sc += "fetch %d\n" % x
+        for j in range(nmid):
+            k += 1; sc += "bigstore %d 1000 %d\nfetch %d\n" % (k, mid, k)
+        t = os.path.join(ctx.work, "frag-%d.ndjson" % i)
+        rc, out, err = ctx.run_harness(exe, ("script", "process", 0, k), trace=t, stdin=sc, timeout=300)
+        if rc != 0:
+            ctx.undecided.append("fragmentation script %d failed rc=%s %s" % (i, rc, err[-300:])); continue
+        for x in validate2(ctx, "CacheTraceP_big.cfg", t):
+            ctx.violation("fragmented:%s" % sig(x), "process-shared cache with a fragmented segment: a medium value was not kept / not a behaviour of Cache at %s" % x["event"][:160], x["path"])
         os.remove(t)
 
 
